@@ -57,7 +57,7 @@ macro_rules! tf {
                 set_prop("C16");
                 let mut rng = Rng::for_label(concat!("C16/threefish/tweak/", $name));
                 let keys: Vec<Vec<u8>> = (0..8).map(|_| rng.plain($kb + 16)).collect();
-                let by_bytes = |k: &[u8]| Some(threefish::$ty::new_with_tweak(&arr(&k[..$kb]), &arr(&k[$kb..])));
+                let by_bytes = |k: &[u8]| Some(threefish::$ty::new_with_tweak(<&[u8; $kb]>::try_from(&k[..$kb]).unwrap(), <&[u8; 16]>::try_from(&k[$kb..]).unwrap()));
                 let by_words = |k: &[u8]| {
                     let kw: [u64; $nw] = r::bytes_to_words::<$nw>(&k[..$kb]);
                     let tw: [u64; 2] = [u64::from_le_bytes(arr(&k[$kb..$kb + 8])), u64::from_le_bytes(arr(&k[$kb + 8..]))];
